@@ -172,6 +172,7 @@ type heapInfo struct {
 }
 
 type Eng struct {
+	closTags map[string]int
 	prog  *ssa.Program
 	pkg   *ssa.Package
 	db    *ContractDB
@@ -229,6 +230,19 @@ func (e *Eng) fresh(prefix, sort string) string {
 	n := fmt.Sprintf("%s!%d", sanitize(prefix), e.nf)
 	e.pre.decls.WriteString(fmt.Sprintf("(declare-const %s %s)\n", n, sort))
 	return n
+}
+
+// closTag numbers the functions closures are made of (isClosure).
+func (e *Eng) closTag(key string) int {
+	if e.closTags == nil {
+		e.closTags = map[string]int{}
+	}
+	if t, ok := e.closTags[key]; ok {
+		return t
+	}
+	t := len(e.closTags) + 1
+	e.closTags[key] = t
+	return t
 }
 
 func (e *Eng) declFun(name, sig string) {
